@@ -103,3 +103,50 @@ theorem fisherMean_eq_mean (bs : CData) (classes : Nat) (j : Nat) (hlab : ∀ p 
     List.length_map, count_eq_flatten]
 
 end SharkVerif.Trainers
+
+namespace SharkVerif.Trainers
+
+/-- a sum of `f p * g (class of p)` grouped by class -/
+theorem lsum_by_class (l : List (Vec × Nat)) (classes : Nat) (f : Vec × Nat → Rat) (g : Nat → Rat)
+    (hlab : ∀ p ∈ l, p.2 < classes) :
+    lsum l (fun p => f p * g p.2)
+      = rsum classes (fun c => g c * lsum l (fun p => if p.2 = c then f p else 0)) := by
+  rw [← rsum_class_split l classes (fun p => f p * g p.2) hlab]
+  apply rsum_congr; intro c _
+  rw [← lsum_mul_left]
+  apply lsum_congr; intro p _
+  by_cases h : p.2 = c
+  · simp [h]; ring
+  · simp [h]
+
+/-- the second-moment formula of `LDA::train` is the pooled within-class scatter:
+`Σ x xᵀ − Σ_c n_c m_c m_cᵀ = Σ_i (x_i − m_{c_i})(x_i − m_{c_i})ᵀ` -/
+theorem scatter_identity (bs : CData) (classes : Nat) (i j : Nat) (hlab : ∀ p ∈ bs.flatten, p.2 < classes) :
+    bsum bs (fun p => p.1.at i * p.1.at j) - rsum classes (fun c => classCount bs c * (ldaMean bs c i * ldaMean bs c j))
+      = withinScatter bs i j := by
+  unfold withinScatter
+  have hcp : ∀ c k, classCount bs c * ldaMean bs c k = lsum bs.flatten (fun p => if p.2 = c then p.1.at k else 0) := by
+    intro c k; rw [class_part_eq, bsum_eq_flatten]
+  have hcc : ∀ c, classCount bs c = lsum bs.flatten (fun p => if p.2 = c then 1 else 0) := by
+    intro c; unfold classCount; rw [bsum_eq_flatten]
+  simp only [bsum_eq_flatten]
+  have hexp : ∀ p : Vec × Nat, (p.1.at i - ldaMean bs p.2 i) * (p.1.at j - ldaMean bs p.2 j)
+      = p.1.at i * p.1.at j - p.1.at i * ldaMean bs p.2 j - p.1.at j * ldaMean bs p.2 i
+        + 1 * (ldaMean bs p.2 i * ldaMean bs p.2 j) := by intro p; ring
+  rw [lsum_congr (fun p _ => hexp p), lsum_add, lsum_sub, lsum_sub,
+    lsum_by_class bs.flatten classes (fun p => p.1.at i) (fun c => ldaMean bs c j) hlab,
+    lsum_by_class bs.flatten classes (fun p => p.1.at j) (fun c => ldaMean bs c i) hlab,
+    lsum_by_class bs.flatten classes (fun _ => 1) (fun c => ldaMean bs c i * ldaMean bs c j) hlab]
+  have e1 : rsum classes (fun c => ldaMean bs c j * lsum bs.flatten (fun p => if p.2 = c then p.1.at i else 0))
+      = rsum classes (fun c => classCount bs c * (ldaMean bs c i * ldaMean bs c j)) :=
+    rsum_congr (fun c _ => by rw [← hcp c i]; ring)
+  have e2 : rsum classes (fun c => ldaMean bs c i * lsum bs.flatten (fun p => if p.2 = c then p.1.at j else 0))
+      = rsum classes (fun c => classCount bs c * (ldaMean bs c i * ldaMean bs c j)) :=
+    rsum_congr (fun c _ => by rw [← hcp c j]; ring)
+  have e3 : rsum classes (fun c => ldaMean bs c i * ldaMean bs c j * lsum bs.flatten (fun p => if p.2 = c then (1 : Rat) else 0))
+      = rsum classes (fun c => classCount bs c * (ldaMean bs c i * ldaMean bs c j)) :=
+    rsum_congr (fun c _ => by rw [← hcc c]; ring)
+  rw [e1, e2, e3]
+  ring
+
+end SharkVerif.Trainers
